@@ -76,6 +76,15 @@ type Outer struct {
 	Shad  int    `bexpr:"A2"`
 }
 
+// Tagged: maps reachable only through tag-renamed fields (absent-key classification must use
+// the evaluator's tag name and hook for the parent lookup too)
+type Tagged struct {
+	Meta   map[string]string      `bexpr:"meta" json:"jmeta"`
+	Labels map[string]interface{} `bexpr:"labels"`
+	W      Wrap
+	Plain  map[string]int
+}
+
 type HiddenHolder struct {
 	Vis    int
 	Secret string `bexpr:"-"`
@@ -102,7 +111,7 @@ var oddTypes = []reflect.Type{
 }
 
 var structTypes = []reflect.Type{
-	reflect.TypeOf(Inner{}), reflect.TypeOf(Outer{}), reflect.TypeOf(HiddenHolder{}), reflect.TypeOf(Wrap{}),
+	reflect.TypeOf(Inner{}), reflect.TypeOf(Outer{}), reflect.TypeOf(HiddenHolder{}), reflect.TypeOf(Wrap{}), reflect.TypeOf(Tagged{}),
 }
 
 var ifaceType = reflect.TypeOf((*interface{})(nil)).Elem()
